@@ -80,6 +80,10 @@ func vpReadOp(k int, seg *Segment) []byte {
 		for _, v := range bm.ToArray() {
 			dig = append(dig, byte(v))
 		}
+		// and a list over one field only (what a delete-by-id batch looks like)
+		bm1, err := seg.DocsMatchingTerms([]segment.Term{vpTermRef{"a", "x"}})
+		vpMust(err, "DocsMatchingTerms")
+		dig = append(dig, byte(bm1.GetCardinality()))
 	case 5:
 		st, err := seg.CollectionStats("a")
 		vpMust(err, "CollectionStats")
@@ -224,6 +228,7 @@ func vpH_C09_frame() {
 		// caches (FSTs, stored block) already populated by an earlier reader
 		vpReadOp(0, seg)
 		vpReadOp(2, seg)
+		_, _ = seg.DocsMatchingTerms([]segment.Term{vpTermRef{"a", "x"}})
 	}
 	k := vpChoice("op", len(vpReadOpNames))
 	vpNote("op:" + vpReadOpNames[k])
